@@ -237,6 +237,7 @@ class Source:
         self.keys, self.transform, self.yield_per = keys, transform, yield_per
         self.scalar_source, self.merged, self.dynamic, self.cursor, self.hidden = scalar_source, merged, dynamic, cursor, hidden
         self.orm = name.startswith("orm")
+        self.chunked = self.orm or name.startswith("chunk")  # a ChunkedIteratorResult
 
     def model_rows(self, variant, idxs):
         rows = rows_of(variant, idxs)
@@ -347,9 +348,22 @@ def apply_view(base, steps, variant):
     return cur
 
 
-def fingerprint(base):
-    """implementation-side state that the model does not carry (buffer fill, strategy)"""
-    out = [bool(getattr(base, "_soft_closed", False)), bool(base.closed)]
+def _memo_yield_per(obj):
+    """the yield_per captured by a memoized _manyrow_getter closure (pure-Python build), or a marker"""
+    fn = getattr(obj, "__dict__", {}).get("_manyrow_getter")
+    if fn is None:
+        return "-"
+    try:
+        return dict(zip(fn.__code__.co_freevars, (c.cell_contents for c in fn.__closure__))).get("yield_per", "?")
+    except Exception:  # noqa: BLE001 - compiled closure: only presence is visible
+        return "memo"
+
+
+def fingerprint(base, view=None):
+    """implementation-side state that the model does not carry (buffer fill, strategy, memoized getters)"""
+    out = [bool(getattr(base, "_soft_closed", False)), bool(base.closed), _memo_yield_per(base)]
+    if view is not None and view is not base:
+        out.append(_memo_yield_per(view))
     cs = getattr(base, "cursor_strategy", None)
     if cs is None:
         raw = getattr(base, "raw", None)
